@@ -130,6 +130,44 @@ func (p *Processor) HandleChargingdataRelease(
 	c.JSON(int(problemDetails.Status), problemDetails)
 }
 
+// validateChargingData rejects requests lacking members the processing below dereferences.
+func validateChargingData(chargingData models.ChfConvergedChargingChargingDataRequest, create bool) *models.ProblemDetails {
+	invalid := func(detail string) *models.ProblemDetails {
+		return &models.ProblemDetails{
+			Title:  "Malformed request syntax",
+			Status: http.StatusBadRequest,
+			Detail: detail,
+			Cause:  "MANDATORY_IE_MISSING",
+		}
+	}
+	if create {
+		nf := chargingData.NfConsumerIdentification
+		if nf == nil {
+			return invalid("nfConsumerIdentification is missing")
+		}
+		if plmn := nf.NFPLMNID; plmn != nil && (len(plmn.Mcc) != 3 || (len(plmn.Mnc) != 2 && len(plmn.Mnc) != 3)) {
+			return invalid("nFPLMNID needs a 3-digit mcc and a 2- or 3-digit mnc")
+		}
+		if pdu := chargingData.PDUSessionChargingInformation; pdu != nil {
+			if pdu.PduSessionInformation == nil || pdu.PduSessionInformation.NetworkSlicingInfo == nil ||
+				pdu.PduSessionInformation.NetworkSlicingInfo.SNSSAI == nil {
+				return invalid("pDUSessionChargingInformation needs pduSessionInformation.networkSlicingInfo.sNSSAI")
+			}
+		}
+	}
+	for _, unitUsage := range chargingData.MultipleUnitUsage {
+		if unitUsage.RequestedUnit != nil {
+			continue
+		}
+		for _, usedUnit := range unitUsage.UsedUnitContainer {
+			if usedUnit.QuotaManagementIndicator == models.QuotaManagementIndicator_ONLINE_CHARGING {
+				return invalid("requestedUnit is missing for a rating group under online charging")
+			}
+		}
+	}
+	return nil
+}
+
 func (p *Processor) ChargingDataCreate(
 	chargingData models.ChfConvergedChargingChargingDataRequest,
 ) (
@@ -138,6 +176,10 @@ func (p *Processor) ChargingDataCreate(
 ) {
 	var responseBody models.ChfConvergedChargingChargingDataResponse
 	var chargingSessionId string
+
+	if problemDetails := validateChargingData(chargingData, true); problemDetails != nil {
+		return nil, "", problemDetails
+	}
 
 	self := chf_context.GetSelf()
 	ueId := chargingData.SubscriberIdentifier
@@ -219,6 +261,10 @@ func (p *Processor) ChargingDataCreate(
 func (p *Processor) ChargingDataUpdate(
 	chargingData models.ChfConvergedChargingChargingDataRequest, chargingSessionId string,
 ) (*models.ChfConvergedChargingChargingDataResponse, *models.ProblemDetails) {
+	if problemDetails := validateChargingData(chargingData, false); problemDetails != nil {
+		return nil, problemDetails
+	}
+
 	self := chf_context.GetSelf()
 	ueId := chargingData.SubscriberIdentifier
 	ue, ok := self.ChfUeFindBySupi(ueId)
@@ -344,6 +390,10 @@ func (p *Processor) ChargingDataUpdate(
 func (p *Processor) ChargingDataRelease(
 	chargingData models.ChfConvergedChargingChargingDataRequest, chargingSessionId string,
 ) *models.ProblemDetails {
+	if problemDetails := validateChargingData(chargingData, false); problemDetails != nil {
+		return problemDetails
+	}
+
 	self := chf_context.GetSelf()
 	ueId := chargingData.SubscriberIdentifier
 	ue, ok := self.ChfUeFindBySupi(ueId)
